@@ -161,16 +161,16 @@ theorem decInt_encInt (i : Int) (h1 : -9223372036854775808 ≤ i) (h2 : i ≤ 92
 
 /-! ### field lists -/
 
-def Fields.get? : Fields → Nat → Option (String × Ty)
+def Fields.get? : Fields → Nat → Option (Bytes × Ty)
   | .nil, _ => none
   | .cons n t _, 0 => some (n, t)
   | .cons _ _ r, i + 1 => Fields.get? r i
 
 def Fields.names : Fields → List Bytes
   | .nil => []
-  | .cons n _ r => nameBytes n :: Fields.names r
+  | .cons n _ r => n :: Fields.names r
 
-def Fields.allKept (keep : List String) : Fields → Bool
+def Fields.allKept (keep : List Bytes) : Fields → Bool
   | .nil => true
   | .cons n _ r => keep.contains n && Fields.allKept keep r
 
@@ -188,11 +188,11 @@ def good : Ty → Bool
   | _ => true
 def goodFields : Fields → Bool
   | .nil => true
-  | .cons n t r => decide ((nameBytes n).length < 4294967296) && good t && goodFields r
+  | .cons n t r => decide (n.length < 4294967296) && good t && goodFields r
 end
 
-theorem Fields.get?_mem_names : (fs : Fields) → (i : Nat) → (n : String) → (t : Ty) → fs.get? i = some (n, t) →
-    nameBytes n ∈ fs.names
+theorem Fields.get?_mem_names : (fs : Fields) → (i : Nat) → (n : Bytes) → (t : Ty) → fs.get? i = some (n, t) →
+    n ∈ fs.names
   | .nil, _, _, _, h => by simp [Fields.get?] at h
   | .cons n0 t0 r, 0, n, t, h => by
     simp only [Fields.get?, Option.some.injEq, Prod.mk.injEq] at h
@@ -201,8 +201,8 @@ theorem Fields.get?_mem_names : (fs : Fields) → (i : Nat) → (n : String) →
     simp only [Fields.get?] at h
     simp [Fields.names, Fields.get?_mem_names r j n t h]
 
-theorem decField_get : (fs : Fields) → fs.names.Nodup → (i : Nat) → (n : String) → (t : Ty) →
-    fs.get? i = some (n, t) → decField fs (nameBytes n) = some (i, dec t)
+theorem decField_get : (fs : Fields) → fs.names.Nodup → (i : Nat) → (n : Bytes) → (t : Ty) →
+    fs.get? i = some (n, t) → decField fs (n) = some (i, dec t)
   | .nil, _, _, _, _, h => by simp [Fields.get?] at h
   | .cons n0 t0 r, hn, 0, n, t, h => by
     simp only [Fields.get?, Option.some.injEq, Prod.mk.injEq] at h
@@ -213,7 +213,7 @@ theorem decField_get : (fs : Fields) → fs.names.Nodup → (i : Nat) → (n : S
     simp only [Fields.names, List.nodup_cons] at hn
     simp only [Fields.get?] at h
     have hm := Fields.get?_mem_names r j n t h
-    have hne : ¬ nameBytes n0 = nameBytes n := by
+    have hne : ¬ n0 = n := by
       intro e; rw [e] at hn; exact hn.1 hm
     simp [decField, hne, decField_get r hn.2 j n t h]
 
@@ -406,7 +406,7 @@ theorem ptr_nonnil (e : Ty) (bs rest : Bytes) (h : HeadOk bs) :
     exact absurd heq.1 h2
   · rfl
 
-theorem keepOnly_all (keep : List String) : (fs : Fields) → (vs zs : Vals) → Fields.allKept keep fs = true →
+theorem keepOnly_all (keep : List Bytes) : (fs : Fields) → (vs zs : Vals) → Fields.allKept keep fs = true →
     vs.length = fs.length → zs.length = fs.length → keepOnly keep fs vs zs = vs
   | .nil, .nil, _, _, _, _ => by cases ‹Vals› <;> simp [keepOnly]
   | .nil, .cons _ _, _, _, h, _ => by simp [Vals.length, Fields.length] at h
@@ -571,7 +571,7 @@ termination_by sizeOf kvs
 
 theorem loop_enc (vs : Vals) (suf fsAll : Fields) (vsAll zs : Vals) (k : Nat) (rest : Bytes)
     (hw : wtFields suf vs = true) (hg : goodFields suf = true)
-    (H1 : ∀ j n t, suf.get? j = some (n, t) → decField fsAll (nameBytes n) = some (k + j, dec t))
+    (H1 : ∀ j n t, suf.get? j = some (n, t) → decField fsAll (n) = some (k + j, dec t))
     (H2 : ∀ j, vsAll.get (k + j) = vs.get j)
     (hlen : k + suf.length ≤ zs.length) :
     structLoop (decField fsAll) suf.length (mix k vsAll zs) (encFields suf vs ++ rest) =
@@ -647,7 +647,7 @@ theorem Vals.length_set : (vs : Vals) → (i : Nat) → (v : Val) → (vs.set i 
   | .cons x r, 0, v => rfl
   | .cons x r, i + 1, v => by simp [Vals.set, Vals.length, Vals.length_set r i v]
 
-theorem Fields.index_lt : (fs : Fields) → (n : String) → (i : Nat) → fs.index n = some i → i < fs.length
+theorem Fields.index_lt : (fs : Fields) → (n : Bytes) → (i : Nat) → fs.index n = some i → i < fs.length
   | .nil, _, _, h => by simp [Fields.index] at h
   | .cons n0 t r, n, i, h => by
     simp only [Fields.index] at h
@@ -662,7 +662,7 @@ theorem Fields.index_lt : (fs : Fields) → (n : String) → (i : Nat) → fs.in
         simp [Fields.length]; omega
 
 /-- two keys with the same position are the same key -/
-theorem Fields.index_inj : (fs : Fields) → (a b : String) → (i : Nat) → fs.index a = some i → fs.index b = some i → a = b
+theorem Fields.index_inj : (fs : Fields) → (a b : Bytes) → (i : Nat) → fs.index a = some i → fs.index b = some i → a = b
   | .nil, _, _, _, h, _ => by simp [Fields.index] at h
   | .cons n0 t r, a, b, i, ha, hb => by
     simp only [Fields.index] at ha hb
@@ -692,19 +692,19 @@ theorem Fields.index_inj : (fs : Fields) → (a b : String) → (i : Nat) → fs
 
 /-! ### migration -/
 
-def migStep (fromFs toFs : Fields) (old : Vals) (acc : Vals) (name : String) : Vals :=
+def migStep (fromFs toFs : Fields) (old : Vals) (acc : Vals) (name : Bytes) : Vals :=
   match fieldOf fromFs old name, toFs.index name with
   | some v, some i => acc.set i v
   | _, _ => acc
 
-theorem migStep_length (fromFs toFs : Fields) (old acc : Vals) (c : String) :
+theorem migStep_length (fromFs toFs : Fields) (old acc : Vals) (c : Bytes) :
     (migStep fromFs toFs old acc c).length = acc.length := by
   unfold migStep
   split
   · exact Vals.length_set _ _ _
   · rfl
 
-theorem migStep_keeps (fromFs toFs : Fields) (old acc : Vals) (c name : String) (v : Val) (j : Nat)
+theorem migStep_keeps (fromFs toFs : Fields) (old acc : Vals) (c name : Bytes) (v : Val) (j : Nat)
     (hfrom : fieldOf fromFs old name = some v) (hto : toFs.index name = some j)
     (hacc : acc.get j = some v) : (migStep fromFs toFs old acc c).get j = some v := by
   unfold migStep
@@ -720,14 +720,14 @@ theorem migStep_keeps (fromFs toFs : Fields) (old acc : Vals) (c name : String) 
     · exact hacc
   · exact hacc
 
-theorem migFold_keeps (fromFs toFs : Fields) (old : Vals) (cs : List String) (acc : Vals) (name : String) (v : Val) (j : Nat)
+theorem migFold_keeps (fromFs toFs : Fields) (old : Vals) (cs : List Bytes) (acc : Vals) (name : Bytes) (v : Val) (j : Nat)
     (hfrom : fieldOf fromFs old name = some v) (hto : toFs.index name = some j)
     (hacc : acc.get j = some v) : (cs.foldl (migStep fromFs toFs old) acc).get j = some v := by
   induction cs generalizing acc with
   | nil => exact hacc
   | cons c cs ih => exact ih _ (migStep_keeps fromFs toFs old acc c name v j hfrom hto hacc)
 
-theorem migFold_sets (fromFs toFs : Fields) (old : Vals) (cs : List String) (acc : Vals) (name : String) (v : Val) (j : Nat)
+theorem migFold_sets (fromFs toFs : Fields) (old : Vals) (cs : List Bytes) (acc : Vals) (name : Bytes) (v : Val) (j : Nat)
     (hfrom : fieldOf fromFs old name = some v) (hto : toFs.index name = some j)
     (hlen : acc.length = toFs.length) (hmem : name ∈ cs) :
     (cs.foldl (migStep fromFs toFs old) acc).get j = some v := by
@@ -751,9 +751,9 @@ theorem migFold_sets (fromFs toFs : Fields) (old : Vals) (cs : List String) (acc
         · exact h
       exact ih _ (by rw [migStep_length, hlen]) this
 
-theorem migrate_eq (fromFs toFs : Fields) (copied : List String) (ver : Bytes) (old : Vals) :
+theorem migrate_eq (fromFs toFs : Fields) (copied : List Bytes) (ver : Bytes) (old : Vals) :
     migrate fromFs toFs copied ver old =
-      (match toFs.index "version" with
+      (match toFs.index kVersion with
        | some i => (copied.foldl (migStep fromFs toFs old) (zeroFields toFs)).set i (.str ver)
        | none => copied.foldl (migStep fromFs toFs old) (zeroFields toFs)) := rfl
 
